@@ -1708,7 +1708,7 @@ register("C03", run_C03, ["C03.C03_every_grammar", "C03.C03_viable", "C03.C03_no
 register("C04", run_C04, ["C04.C04_emitted_iff_conflict_free", "C04.C04_setAction_ok_iff", "C04.C04_setAction_fresh", "C04.C04_ok_conflict_free", "C04.C04_conflict_genuine"])
 register("C05", run_C05, ["C05.C05_fresh"])
 register("C06", run_C06, ["C06.C06_fields", "C06.C06_items_and_signature"])
-register("C07", run_C07, ["C07.C07_validate_no_panic", "C07.C07_generator_no_panic", "C07.C07_generator_total", "C07.C07_parse_error_no_panic", "C07.bracketScan_no_panic", "C07.C07_handleMain_no_panic", "C07.C07_tokenize_total", "C07.C07_parse_no_panic", "C07.C07_cst_to_ast_total"])
+register("C07", run_C07, ["C07.C07_generate_no_panic", "C07.C07_emission_total", "C07.C07_validate_no_panic", "C07.C07_generator_no_panic", "C07.C07_generator_total", "C07.C07_parse_error_no_panic", "C07.bracketScan_no_panic", "C07.C07_handleMain_no_panic", "C07.C07_tokenize_total", "C07.C07_parse_no_panic", "C07.C07_cst_to_ast_total"])
 register("C08", run_C08, ["C08.C08_positions", "C08.C08_scan_total", "C08.C08_double_colon", "C08.C08_tokenize_eq_spec", "C08.C08_tokenize_total"])
 register("C09", run_C09, ["C09.C09_error_span", "C09.C09_kinds", "C09.C09_nonterminals", "C09.C09_rule_numbering", "C09.C09_reduce_arms", "C09.C09_table_valid", "C09.C09_parse_correct", "C09.C09_flatten"])
 register("C10", run_C10, ["C10.C10_one_start_one_terminal", "C10.C10_ok_sound", "C10.C10_err_truthful", "C10.C10_truthful_not_wellFormed", "C10.C10_ok_iff_wellFormed", "C10.C10_no_panic"])
